@@ -111,8 +111,9 @@ impl Scripted {
         self
     }
 
-    fn note(&self, j: J) {
+    fn note_with(&self, f: impl FnOnce() -> J) {
         if self.log_reads {
+            let j = f();
             self.sh.log.lock().unwrap().push(j);
         }
     }
@@ -164,22 +165,22 @@ impl Read for Scripted {
             Step::Deliver(n) => {
                 let k = self.deliver(n.max(1), buf);
                 if k == 0 && want > 0 {
-                    self.note(json!({"ev":"read","want":want,"pos":pos,"r":"eof"}));
+                    self.note_with(|| json!({"ev":"read","want":want,"pos":pos,"r":"eof"}));
                 } else {
-                    self.note(json!({"ev":"read","want":want,"pos":pos,"r":"got","n":k}));
+                    self.note_with(|| json!({"ev":"read","want":want,"pos":pos,"r":"got","n":k}));
                 }
                 Ok(k)
             }
             Step::Intr => {
-                self.note(json!({"ev":"read","want":want,"pos":pos,"r":"intr"}));
+                self.note_with(|| json!({"ev":"read","want":want,"pos":pos,"r":"intr"}));
                 Err(io::Error::new(io::ErrorKind::Interrupted, "scripted interrupt"))
             }
             Step::Pending(_) => {
-                self.note(json!({"ev":"read","want":want,"pos":pos,"r":"err","kind":"WouldBlock"}));
+                self.note_with(|| json!({"ev":"read","want":want,"pos":pos,"r":"err","kind":"WouldBlock"}));
                 Err(io::Error::new(io::ErrorKind::WouldBlock, "scripted would-block"))
             }
             Step::Fault(k) | Step::FaultAt(_, k) => {
-                self.note(json!({"ev":"read","want":want,"pos":pos,"r":"err","kind":kind_name(k)}));
+                self.note_with(|| json!({"ev":"read","want":want,"pos":pos,"r":"err","kind":kind_name(k)}));
                 Err(io::Error::new(k, "scripted fault"))
             }
         }
@@ -195,19 +196,19 @@ impl AsyncRead for Scripted {
             Step::Deliver(n) => {
                 let k = self.deliver(n.max(1), buf);
                 if k == 0 && want > 0 {
-                    self.note(json!({"ev":"read","want":want,"pos":pos,"r":"eof"}));
+                    self.note_with(|| json!({"ev":"read","want":want,"pos":pos,"r":"eof"}));
                 } else {
-                    self.note(json!({"ev":"read","want":want,"pos":pos,"r":"got","n":k}));
+                    self.note_with(|| json!({"ev":"read","want":want,"pos":pos,"r":"got","n":k}));
                 }
                 Poll::Ready(Ok(k))
             }
             Step::Pending(now) => {
-                self.note(json!({"ev":"read","want":want,"pos":pos,"r":"pending","wake": if now {"now"} else {"later"}}));
+                self.note_with(|| json!({"ev":"read","want":want,"pos":pos,"r":"pending","wake": if now {"now"} else {"later"}}));
                 if now {
                     cx.waker().wake_by_ref();
                 } else if self.threaded_wake {
                     let w = cx.waker().clone();
-                    self.note(json!({"ev":"wake"}));
+                    self.note_with(|| json!({"ev":"wake"}));
                     std::thread::spawn(move || {
                         std::thread::sleep(std::time::Duration::from_micros(300));
                         w.wake();
@@ -219,12 +220,12 @@ impl AsyncRead for Scripted {
             }
             Step::Intr => {
                 // an async source has no Interrupted convention; treat as an immediate not-ready
-                self.note(json!({"ev":"read","want":want,"pos":pos,"r":"pending","wake":"now"}));
+                self.note_with(|| json!({"ev":"read","want":want,"pos":pos,"r":"pending","wake":"now"}));
                 cx.waker().wake_by_ref();
                 Poll::Pending
             }
             Step::Fault(k) | Step::FaultAt(_, k) => {
-                self.note(json!({"ev":"read","want":want,"pos":pos,"r":"err","kind":kind_name(k)}));
+                self.note_with(|| json!({"ev":"read","want":want,"pos":pos,"r":"err","kind":kind_name(k)}));
                 Poll::Ready(Err(io::Error::new(k, "scripted fault")))
             }
         }
